@@ -1244,3 +1244,41 @@ def specialise_value(f, subj, v, eb=None):
             if s != live:
                 rem.append((b, s))
     return pruned(f, rem), decided
+
+
+def closure_captures(facts, closure):
+    """(creating function, [expression of each captured value, in the creating function]) of a closure"""
+    for f in facts.func_list:
+        for loc, s in f.assigns():
+            rv = s['rv']
+            if rv['k'] == 'agg' and rv.get('ak') == 'closure' and rv.get('closure') == closure.path:
+                eb = ExprBuilder(f, multi='phi')
+                return f, [eb.operand(o) for o in rv['ops']]
+    return None, []
+
+
+def resolve_upvars(facts, closure, e):
+    """rewrite projections of the closure environment (`(*_1).i`) inside e into the expression the
+    creating function captured there, so `let fd = self.fd(); add(|s| close(fd, ..))` and
+    `add(|s| close(self.fd(), ..))` look alike"""
+    parent, caps = closure_captures(facts, closure)
+    if parent is None:
+        return e
+
+    def rec(x):
+        if not isinstance(x, tuple) or not x:
+            return x
+        if x[0] == 'proj' and x[1][0] == 'arg' and x[1][1] == 1:
+            projs = [p for p in x[2] if p != '*']
+            if projs and projs[0][1:].isdigit() and int(projs[0][1:]) < len(caps):
+                cap = caps[int(projs[0][1:])]
+                while cap[0] == 'ref':
+                    cap = cap[1]
+                rest = projs[1:]
+                return cap if not rest else E('proj', cap, tuple(rest), x[3])
+        if x[0] == 'call':
+            return Expr(('call', x[1], tuple(rec(a) for a in x[2])) + tuple(x[3:]))
+        if x[0] in ('ref', 'cast', 'un'):
+            return Expr(tuple(rec(a) if isinstance(a, tuple) and a and isinstance(a[0], str) else a for a in x))
+        return x
+    return rec(e)
